@@ -223,7 +223,8 @@ class BlockNode(Node):
         if stack_item.required:
             raise RequiredBlockError(
                 f"block {self.name!r} must be overridden",
-                token=self.token,
+                # The required block, in the template that is named.
+                token=stack_item.block.token,
                 template_name=stack_item.source_name,
             )
 
@@ -283,7 +284,8 @@ class BlockNode(Node):
         if stack_item.required:
             raise RequiredBlockError(
                 f"block {self.name!r} must be overridden",
-                token=self.token,
+                # The required block, in the template that is named.
+                token=stack_item.block.token,
                 template_name=stack_item.source_name,
             )
 
